@@ -257,6 +257,10 @@ func TestProperty(t *testing.T) {
 		{Name: "quote", Quick: 50000, Thorough: 800000, Gen: genCase(gen.Doc()), Prop: propQuote, Rule: ruleQ},
 		{Name: "quote_lines", Quick: 30000, Thorough: 400000, Gen: genCase(gen.Lines()), Prop: propQuote, Rule: "G2 only: " + ruleQ},
 		{Name: "list", Quick: 50000, Thorough: 800000, Gen: genCase(genListDoc(gen.Doc())), Prop: propList, Rule: ruleL},
+		{Name: "quote_refs", Quick: 20000, Thorough: 300000, Gen: genCase(gen.RefsDoc()), Prop: propQuote, Rule: "D = competing reference definitions and uses of labels from a tiny pool, each wrapped in 0-2 containers (so that, once quoted, all of them sit at different depths of one root block and source order decides): " + ruleQ},
+		{Name: "list_refs", Quick: 20000, Thorough: 300000, Gen: genCase(gen.RefsDoc()), Prop: propList, Rule: "D as for quote_refs: " + ruleL},
+		{Name: "quote_long_labels", Quick: 2500, Thorough: 40000, Gen: genCase(gen.LongLabelDoc()), Prop: propQuote, Rule: "D = a definition and a use of a label of 985-1003 characters written on 1-5 lines (the limit is 999 characters between the brackets, whatever container prefixes the lines carry): " + ruleQ},
+		{Name: "list_long_labels", Quick: 2500, Thorough: 40000, Gen: genCase(gen.LongLabelDoc()), Prop: propList, Rule: "D as for quote_long_labels: " + ruleL},
 		{Name: "list_lines", Quick: 30000, Thorough: 400000, Gen: genCase(genListDoc(gen.Lines())), Prop: propList, Rule: "G2 only: " + ruleL},
 	}})
 }
